@@ -75,6 +75,20 @@ def handle : Handler := fun op args =>
     match streamStruct tbl fmt.toList (← parseList? parseVal? vals) with
     | .ok b => some ("ok " ++ encodeHexFast b)
     | .error e => some (errS e)
+  -- `pack_struct(fmt, *args)` / `unpack_struct(fmt, b)`: the bytes-in / bytes-out forms of the two above
+  | "struct_pack", [fmt, vals] => do
+    match streamStruct tbl fmt.toList (← parseList? parseVal? vals) with
+    | .ok b => some ("ok " ++ encodeHexFast b)
+    | .error e => some (errS e)
+  | "struct_unpack", [fmt, b] => do
+    match parseStruct tbl fmt.toList (← parseBytes? b) with
+    | .ok (vs, _) => some s!"ok {showList showVal vs}"
+    | .error e => some (errS e)
+  -- the deprecated `Tx.tx_from_hex` is `from_hex`
+  | "tx_from_hex_dep", [c, s] => do
+    match Tx.fromHex (← parseCoin? c) (rawStr s) with
+    | .ok (tx, us) => some s!"ok {showTx tx} {showUnspents us}"
+    | .error e => some (errS e)
   | "tx_parse", [c, b] => do
     match Tx.parse (← parseCoin? c) (← parseBytes? b) with
     | .ok (tx, r) => some s!"ok {showTx tx} {encodeHexFast r}"
